@@ -69,6 +69,8 @@ def run(ck, tier):
     _infl.run(ck, F, 'C03')
     from . import mustpass as _mp
     _mp.run(ck, F, 'C03')
+    from . import accum as _acc
+    _acc.run(ck, F, 'C03')
     run_masks(ck, F)
     ck.rule("C03.dispatch-total", "filter / take / concat / interleave / MutableArrayData extend / make_array / layout route every DataType constructor to an "
             "implementation or the generic fallback; diverging arms are reached only by the enumerated constructors handled elsewhere", floor=len(TOTAL) * 38)
